@@ -16,6 +16,10 @@
 (* boundaries of a head+tail sampler, see the table at SizeOf.  In the      *)
 (* model the hash of a file IS its content id: equal ids <=> equal hashes.  *)
 (*                                                                          *)
+(* The IDENTITY part of the contract (the provider is bound to the account  *)
+(* of its first login; a foreign login is refused, every time) is the       *)
+(* independent module ProviderIdentity.tla; Trace_Provider extends both.    *)
+(*                                                                          *)
 (* Every call is a PURE operator  P<Call>(f, n, args)  returning            *)
 (*   [errs, oid, fs, next, evs] :  errs = set of error classes that apply   *)
 (*   (empty = the call succeeds; when several conditions hold any of the    *)
